@@ -13,30 +13,30 @@ import (
 // State / event wire names used as anchors. They are protocol constants (persisted in
 // dumps and posted on the board), so they are more stable than Go identifiers.
 const (
-	stIdle              = "__idle"
-	stSigAwait          = "state_sig_proposal_await_participants_confirmations"
-	stSigCollected      = "state_sig_proposal_collected"
-	stCommitsAwait      = "state_dkg_commits_await_confirmations"
-	stDealsAwait        = "state_dkg_deals_await_confirmations"
-	stResponsesAwait    = "state_dkg_responses_await_confirmations"
-	stMasterKeyAwait    = "state_dkg_master_key_await_confirmations"
-	stMasterKeyCollect  = "state_dkg_master_key_collected"
-	stSigningIdle       = "stage_signing_idle"
-	stSigningAwait      = "state_signing_await_partial_signs"
-	stSigningCollected  = "state_signing_partial_signs_collected"
-	evSigInit           = "event_sig_proposal_init"
-	evDKGInit           = "event_dkg_init_process"
-	evSigningInit       = "event_signing_init"
-	evSigningStart      = "event_signing_start"
-	evSigningRestart    = "event_signing_restart"
-	evPartialSign       = "event_signing_partial_sign_received"
-	evPartialSignError  = "event_signing_partial_sign_error_received"
-	pkgSPF              = "fsm/state_machines/signature_proposal_fsm"
-	pkgDPF              = "fsm/state_machines/dkg_proposal_fsm"
-	pkgSIF              = "fsm/state_machines/signing_proposal_fsm"
-	pkgInternal         = "fsm/state_machines/internal"
-	pkgNode             = "client/services/node"
-	pkgRequests         = "fsm/types/requests"
+	stIdle             = "__idle"
+	stSigAwait         = "state_sig_proposal_await_participants_confirmations"
+	stSigCollected     = "state_sig_proposal_collected"
+	stCommitsAwait     = "state_dkg_commits_await_confirmations"
+	stDealsAwait       = "state_dkg_deals_await_confirmations"
+	stResponsesAwait   = "state_dkg_responses_await_confirmations"
+	stMasterKeyAwait   = "state_dkg_master_key_await_confirmations"
+	stMasterKeyCollect = "state_dkg_master_key_collected"
+	stSigningIdle      = "stage_signing_idle"
+	stSigningAwait     = "state_signing_await_partial_signs"
+	stSigningCollected = "state_signing_partial_signs_collected"
+	evSigInit          = "event_sig_proposal_init"
+	evDKGInit          = "event_dkg_init_process"
+	evSigningInit      = "event_signing_init"
+	evSigningStart     = "event_signing_start"
+	evSigningRestart   = "event_signing_restart"
+	evPartialSign      = "event_signing_partial_sign_received"
+	evPartialSignError = "event_signing_partial_sign_error_received"
+	pkgSPF             = "fsm/state_machines/signature_proposal_fsm"
+	pkgDPF             = "fsm/state_machines/dkg_proposal_fsm"
+	pkgSIF             = "fsm/state_machines/signing_proposal_fsm"
+	pkgInternal        = "fsm/state_machines/internal"
+	pkgNode            = "client/services/node"
+	pkgRequests        = "fsm/types/requests"
 )
 
 var phaseChain = []string{stIdle, stSigAwait, stSigCollected, stCommitsAwait, stDealsAwait, stResponsesAwait, stMasterKeyAwait, stMasterKeyCollect, stSigningIdle}
